@@ -1,7 +1,7 @@
 (* The case language interpreter: one case (an s-expression) in, one canonical result line out.
    The same function is evaluated in-kernel (vm_compute) and extracted to OCaml. *)
 From Coq Require Import Strings.String.
-From Iso Require Import Model.Base Model.Sexp Model.Padding.
+From Iso Require Import Model.Base Model.Sexp Model.Padding Model.Encoding.
 
 Definition S' (s : string) : bytes := list_byte_of_string s.
 
@@ -38,11 +38,54 @@ Definition run_unpad (args : list sexp) : bytes :=
   | _ => bad
   end.
 
+Definition parse_encoder (s : sexp) : option encoder :=
+  if atom_is s (S' "ASCII") then Some EncASCII
+  else if atom_is s (S' "Binary") then Some EncBinary
+  else if atom_is s (S' "BCD") then Some EncBCD
+  else if atom_is s (S' "LBCD") then Some EncLBCD
+  else if atom_is s (S' "Hex") then Some EncHex
+  else if atom_is s (S' "HexToBytes") then Some EncHexToBytes
+  else if atom_is s (S' "EBCDIC") then Some EncEBCDIC
+  else if atom_is s (S' "EBCDIC1047") then Some EncEBCDIC1047
+  else if atom_is s (S' "BerTag") then Some EncBerTag
+  else None.
+
+Definition show_outcome {A} (show : A -> bytes) (o : outcome A) : bytes :=
+  match o with
+  | Ok a => S' "ok " ++ show a
+  | Err _ => S' "err"
+  | Panic _ => S' "panic"
+  | OutOfFuel => S' "outoffuel"
+  end.
+
+Definition run_enc_enc (args : list sexp) : bytes :=
+  match args with
+  | [e; d] =>
+      match parse_encoder e, as_hex d with
+      | Some e, Some d => show_outcome show_hex (enc_encode e d)
+      | _, _ => bad
+      end
+  | _ => bad
+  end.
+
+Definition run_enc_dec (args : list sexp) : bytes :=
+  match args with
+  | [e; n; d] =>
+      match parse_encoder e, as_int n, as_hex d with
+      | Some e, Some n, Some d =>
+          show_outcome (fun '(v, r) => show_hex v ++ sp ++ show_int r) (enc_decode e d n)
+      | _, _, _ => bad
+      end
+  | _ => bad
+  end.
+
 Definition dispatch (s : sexp) : bytes :=
   match s with
   | SList (Atom name :: args) =>
       if bytes_eqb name (S' "pad") then run_pad args
       else if bytes_eqb name (S' "unpad") then run_unpad args
+      else if bytes_eqb name (S' "enc.enc") then run_enc_enc args
+      else if bytes_eqb name (S' "enc.dec") then run_enc_dec args
       else bad
   | _ => bad
   end.
